@@ -80,7 +80,7 @@ Record reqst := mkReq {
   q_fired : list nat;
   q_cnt : nat;                               (* allocation counter, see [alloc_place] *)
   q_log : list event;
-  q_clog : list (Z * nat)                    (* cleanup id, request whose finish was running *)
+  q_clog : list (Z * nat)                    (* cleanup id, request whose root was being dropped *)
 }.
 
 Record ambient := mkAmb {
@@ -90,9 +90,9 @@ Record ambient := mkAmb {
 }.
 
 Record world := mkWorld {
-  w_reqs : list reqst;                       (* index = request id; entry 0 is the orphan pseudo-request *)
+  w_reqs : rid -> reqst;                     (* request 0 is the orphan pseudo-request *)
+  w_n : nat;                                 (* requests 1 .. w_n exist *)
   w_store : list ((nat * handle) * Z);       (* (arena, key) -> value; arena 0 = the process-global one *)
-  w_finishing : nat;                         (* which request's Finish is executing (for the cleanup log) *)
   w_panic : bool                             (* an arena access with no live arena (the code panics) *)
 }.
 
@@ -100,7 +100,7 @@ Record cfg := mkCfg { c_w : world; c_amb : ambient }.
 
 (** * Small helpers *)
 Definition empty_req : reqst := mkReq [] 0 false false [] [] [] [] 0 [] [].
-Definition get_req (r : rid) (w : world) : reqst := nth r (w_reqs w) empty_req.
+Definition get_req (r : rid) (w : world) : reqst := w_reqs w r.
 
 Fixpoint set_nth {A} (n : nat) (x : A) (l : list A) : list A :=
   match l, n with
@@ -110,11 +110,10 @@ Fixpoint set_nth {A} (n : nat) (x : A) (l : list A) : list A :=
   end.
 
 Definition set_req (r : rid) (q : reqst) (w : world) : world :=
-  mkWorld (set_nth r q (w_reqs w)) (w_store w) (w_finishing w) (w_panic w).
+  mkWorld (fun x => if Nat.eqb x r then q else w_reqs w x) (w_n w) (w_store w) (w_panic w).
 Definition set_store (s : list ((nat * handle) * Z)) (w : world) : world :=
-  mkWorld (w_reqs w) s (w_finishing w) (w_panic w).
-Definition set_panic (w : world) : world := mkWorld (w_reqs w) (w_store w) (w_finishing w) true.
-Definition set_finishing (r : nat) (w : world) : world := mkWorld (w_reqs w) (w_store w) r (w_panic w).
+  mkWorld (w_reqs w) (w_n w) s (w_panic w).
+Definition set_panic (w : world) : world := mkWorld (w_reqs w) (w_n w) (w_store w) true.
 
 Definition upd_owners (f : list owner -> list owner) (q : reqst) : reqst :=
   mkReq (q_prog q) (q_ngates q) (q_started q) (q_dropped q) (f (q_owners q)) (q_slots q) (q_tasks q)
@@ -226,6 +225,14 @@ Definition read_item (sb : bool) (me : rid) (c : cfg) (slot : nat) : Z :=
   | None => (-2)%Z
   end.
 
+(** the owner that provide_context / on_cleanup / arena registration write to.  Owners of the
+    orphan table stand for *fresh* default owners: nothing written to one is ever read back *)
+Definition write_owner (c : cfg) : option oref :=
+  match cur_owner c with
+  | Some o => if Nat.eqb (fst o) 0 then None else Some o
+  | None => None
+  end.
+
 (** * Actions *)
 (** Where an allocation goes and how its key is named.  The process-global SlotMap hands out
     keys that are never valid twice (index + version): modelled as (allocating request, n-th
@@ -252,7 +259,7 @@ Definition do_act (sb : bool) (me : rid) (a : act) (c : cfg) : cfg :=
       let t1 := if Nat.eqb kind 2 then (-5)%Z else read_ctx c 1 in
       upd_req me (add_log (p, kind, read_owner_req c, read_ctx c 0, t1, item)) c
   | AProvide k v =>
-      match cur_owner c with
+      match write_owner c with
       | Some o => upd_req (fst o) (upd_owners (upd_owner (snd o)
                     (fun ow => mkOwner (o_parent ow) ((k, v) :: o_ctx ow) (o_nodes ow) (o_cleanups ow)))) c
       | None => c
@@ -266,14 +273,14 @@ Definition do_act (sb : bool) (me : rid) (a : act) (c : cfg) : cfg :=
           let c := upd_req cnt_of bump_cnt c in
           let c := with_w c (set_store (((arena, h), v) :: w_store (c_w c)) (c_w c)) in
           let c := upd_req me (add_slot slot h) c in
-          match cur_owner c with
+          match write_owner c with
           | Some o => upd_req (fst o) (upd_owners (upd_owner (snd o)
                         (fun ow => mkOwner (o_parent ow) (o_ctx ow) (h :: o_nodes ow) (o_cleanups ow)))) c
           | None => c
           end
       end
   | AOnCleanup id =>
-      match cur_owner c with
+      match write_owner c with
       | Some o => upd_req (fst o) (upd_owners (upd_owner (snd o)
                     (fun ow => mkOwner (o_parent ow) (o_ctx ow) (o_nodes ow) (id :: o_cleanups ow)))) c
       | None => c
@@ -295,7 +302,7 @@ Definition drop_req (sb : bool) (r : rid) (c : cfg) : cfg :=
   let store := if sb then store_del_arena r store else store in
   let q' := mkReq (q_prog q) (q_ngates q) (q_started q) true (q_owners q) (q_slots q) (q_tasks q)
                   (q_fired q) (q_cnt q) (q_log q)
-                  (q_clog q ++ map (fun id => (id, w_finishing w)) ids) in
+                  (q_clog q ++ map (fun id => (id, r)) ids) in
   (* owner.unset(): OWNER is cleared only if it is this very owner *)
   let amb := c_amb c in
   let amb' := match a_owner amb with
@@ -315,21 +322,23 @@ Definition leave_owner (saved : option oref) (c : cfg) : cfg :=
 Definition set_obs (s : option nat) (c : cfg) : cfg :=
   let amb := c_amb c in with_amb c (mkAmb (a_owner amb) s (a_arena amb)).
 
-(** Owner::current().unwrap_or_default() / Owner::current().child() when there is no live owner *)
+(** Owner::current().unwrap_or_default() when OWNER is empty: a fresh owner of no request *)
 Definition orphan : oref := (0, 0).
 
+(** Owner::new() / Owner::current().child(): a child of the current owner; if OWNER holds a dead
+    Weak (its request's root was dropped) or nothing, a parent-less owner.  A parent-less owner
+    made while OWNER pointed into request x is book-kept in x's table (it is unreachable from
+    anything of x and dies with x); one made with OWNER empty goes to the orphan table 0. *)
 Definition new_child (c : cfg) : cfg * oref :=
-  match cur_owner c with
-  | Some o =>
-      let q := get_req (fst o) (c_w c) in
-      let i := length (q_owners q) in
-      (upd_req (fst o) (upd_owners (fun os => os ++ [mkOwner (Some (snd o)) [] [] []])) c, (fst o, i))
-  | None => (c, orphan)
-  end.
+  let x := match a_owner (c_amb c) with Some o => fst o | None => 0 end in
+  let parent := match cur_owner c with Some o => Some (snd o) | None => None end in
+  let q := get_req x (c_w c) in
+  (upd_req x (upd_owners (fun os => os ++ [mkOwner parent [] [] []])) c, (x, length (q_owners q))).
 
+(** ScopedFuture::new: Owner::current().unwrap_or_default() and Observer::get() *)
 Definition resolve_wrap (w : wrap) (c : cfg) : wrap :=
   match w with
-  | WCapture => WCaptured (match cur_owner c with Some o => o | None => orphan end) (a_obs (c_amb c))
+  | WCapture => WCaptured (match a_owner (c_amb c) with Some o => o | None => orphan end) (a_obs (c_amb c))
   | _ => w
   end.
 
@@ -340,24 +349,30 @@ Definition fired (me : rid) (g : nat) (c : cfg) : bool :=
 (** [exec i c] runs instruction [i] of a task of request [me]; [None] = completed,
     [Some i'] = returned Pending, [i'] is what is left to do at the next poll.  Every wrapper
     that was entered is left again before Pending is returned. *)
-Fixpoint exec (sb : bool) (me : rid) (i : instr) (c : cfg) {struct i} : cfg * option instr :=
+Section Exec.
+Variable sb : bool.
+Variable me : rid.
+
+Definition block (mk : list instr -> instr) (r : cfg * list instr) : cfg * option instr :=
+  match snd r with [] => (fst r, None) | rest => (fst r, Some (mk rest)) end.
+
+Fixpoint exec (i : instr) (c : cfg) {struct i} : cfg * option instr :=
   let exec_list :=
     fix exec_list (l : list instr) (c : cfg) {struct l} : cfg * list instr :=
       match l with
       | [] => (c, [])
       | i :: l' =>
-          match exec sb me i c with
+          match exec i c with
           | (c', None) => exec_list l' c'
           | (c', Some i') => (c', i' :: l')
           end
       end in
-  let block (mk : list instr -> instr) (r : cfg * list instr) : cfg * option instr :=
-    match snd r with [] => (fst r, None) | rest => (fst r, Some (mk rest)) end in
   match i with
   | IAct a => (do_act sb me a c, None)
   | IAwait g => if fired me g c then (c, None) else (c, Some (IAwait g))
   | IChild body =>
-      let (c1, o) := new_child c in
+      let c1 := fst (new_child c) in
+      let o := snd (new_child c) in
       let saved := a_owner (c_amb c1) in
       let r := exec_list body (enter_owner sb o c1) in
       block (IWith o) (leave_owner saved (fst r), snd r)
@@ -385,15 +400,16 @@ Fixpoint exec (sb : bool) (me : rid) (i : instr) (c : cfg) {struct i} : cfg * op
   | IDropRoot => (drop_req sb me c, None)
   end.
 
-Fixpoint exec_list (sb : bool) (me : rid) (l : list instr) (c : cfg) {struct l} : cfg * list instr :=
+Fixpoint exec_list (l : list instr) (c : cfg) {struct l} : cfg * list instr :=
   match l with
   | [] => (c, [])
   | i :: l' =>
-      match exec sb me i c with
-      | (c', None) => exec_list sb me l' c'
+      match exec i c with
+      | (c', None) => exec_list l' c'
       | (c', Some i') => (c', i' :: l')
       end
   end.
+End Exec.
 
 (** polling task [t] of request [r] once, from whatever the ambient state currently is *)
 Definition poll_task (sb : bool) (r : rid) (t : nat) (c : cfg) : cfg :=
@@ -413,7 +429,7 @@ Definition poll_task (sb : bool) (r : rid) (t : nat) (c : cfg) : cfg :=
     top-level task, which is wrapped in Sandboxed only *)
 Definition start (sb : bool) (r : rid) (c : cfg) : cfg :=
   let q := get_req r (c_w c) in
-  if q_started q || Nat.eqb r 0 || negb (Nat.ltb r (length (w_reqs (c_w c)))) then c else
+  if q_started q || Nat.eqb r 0 || Nat.ltb (w_n (c_w c)) r then c else
   let q' := mkReq (q_prog q) (q_ngates q) true false [mkOwner None [] [] []] [] [mkTask (Some (Some r)) (q_prog q)]
                   [] 0 [] [] in
   let amb := c_amb c in
@@ -438,8 +454,14 @@ Definition run_sched (sb : bool) (s : list sev) (c : cfg) : cfg := fold_left (fu
 
 Definition orphan_req : reqst := mkReq [] 0 true false [mkOwner None [] [] []] [] [] [] 0 [] [].
 Definition init_world (progs : list (list instr * nat)) : cfg :=
-  mkCfg (mkWorld (orphan_req :: map (fun pg => mkReq (fst pg) (snd pg) false false [] [] [] [] 0 [] []) progs)
-                 [] 0 false)
+  mkCfg (mkWorld (fun r => match r with
+                           | O => orphan_req
+                           | S k => match nth_error progs k with
+                                    | Some pg => mkReq (fst pg) (snd pg) false false [] [] [] [] 0 [] []
+                                    | None => empty_req
+                                    end
+                           end)
+                 (length progs) [] false)
         (mkAmb None None None).
 
 (** * The view grammar of the harness and how the code wraps each construct *)
@@ -566,9 +588,7 @@ Definition apply_coarse (sb : bool) (a : coarse) (c : cfg) : cfg :=
   | CRun r => if q_started q && negb (q_dropped q) then run_req sb (rounds_for r c) r c else c
   | CFinish r =>
       if q_started q && negb (q_dropped q) then
-        let c := with_w c (set_finishing r (c_w c)) in
         let c := upd_req r (add_fired FINAL_GATE) (fire_all r (q_ngates q) c) in
-        let c := run_req sb (rounds_for r c) r c in
-        with_w c (set_finishing 0 (c_w c))
+        run_req sb (rounds_for r c) r c
       else c
   end.
